@@ -30,7 +30,7 @@ func validateConfig(cfg ElectionConfig) error {
 	}
 
 	// Check ValidationInterval (if set)
-	if cfg.ValidationInterval > 0 {
+	if cfg.ValidationInterval != 0 {
 		if cfg.ValidationInterval < cfg.HeartbeatInterval {
 			return NewValidationError("ValidationInterval", cfg.ValidationInterval,
 				fmt.Sprintf("validation interval (%v) should be >= HeartbeatInterval (%v)",
@@ -38,7 +38,7 @@ func validateConfig(cfg ElectionConfig) error {
 		}
 	}
 
-	if cfg.DisconnectGracePeriod > 0 {
+	if cfg.DisconnectGracePeriod != 0 {
 		minGracePeriod := cfg.HeartbeatInterval * 2
 		if cfg.DisconnectGracePeriod < minGracePeriod {
 			return NewValidationError("DisconnectGracePeriod", cfg.DisconnectGracePeriod,
